@@ -1360,6 +1360,169 @@ def eval_skip_empty(ctx, repo, agg):
 
 
 
+CORE = "dclab/rtdc_dataset/core.py"
+
+
+class MBasin:
+    _strict_attrs = True
+
+    def __init__(self, features, available):
+        self.features = features
+        self._av = available
+        self.asked = 0
+
+    def is_available(self):
+        self.asked += 1
+        return self._av
+
+
+class MBasinDS:
+    """model dataset whose `features_basin` property is the one of core.py"""
+
+    def __init__(self, cls, basins):
+        self._ast_class = cls
+        self._basins_features = None
+        self.basins = basins
+
+
+def eval_features_basin(ctx, repo, agg):
+    """R8.5: condense reads ds.features_basin - it must be the union of the
+    features of all available basins (a basin may only be skipped when it
+    adds nothing)"""
+    node = repo.func(CORE, "RTDCBase.features_basin")
+    it = L.Interp(repo)
+    env = it.env(CORE, {})
+    cls = env.lookup("RTDCBase")
+    lists = [[], ["a"], ["a", "b"], ["b", "c"], ["c"], ["a", "b", "c"]]
+    n = 0
+    for k in (1, 2, 3):
+        for feats in itertools.product(lists, repeat=k):
+            for avail in itertools.product((True, False), repeat=k):
+                if k == 3 and not all(avail):
+                    continue
+                basins = [MBasin(list(f), a) for f, a in zip(feats, avail)]
+                ds = MBasinDS(cls, basins)
+                n += 1
+                res = L.run(lambda: list(L.lookup_attr(
+                    it, ds, "features_basin", None)))
+                want = sorted(set().union(*[set(b.features) for b in basins
+                                            if b._av]))
+                ok = res == ("ok", want)
+                agg.add("R8.5", "features_basin is the union of the "
+                        "available basins", node, ok,
+                        f"basins with features {[list(f) for f in feats]} "
+                        f"(available: {list(avail)}): features_basin is "
+                        f"{_res(res)}, expected {want} - features of a "
+                        f"basin that only partly overlaps with earlier ones "
+                        f"are lost (dclab-condense does not store them)")
+    ctx.stat("features_basin evaluations", n)
+
+
+class MP:
+    """model pathlib.Path for setup_task_paths (pure path + a file system
+    that holds nothing)"""
+    _strict_attrs = True
+
+    def __init__(self, p):
+        import pathlib
+        self._p = p._p if isinstance(p, MP) else pathlib.PurePosixPath(p)
+
+    @property
+    def suffix(self):
+        return self._p.suffix
+
+    @property
+    def name(self):
+        return self._p.name
+
+    @property
+    def parent(self):
+        return MP(self._p.parent)
+
+    def with_suffix(self, s):
+        return MP(self._p.with_suffix(s))
+
+    def with_name(self, n):
+        return MP(self._p.with_name(n))
+
+    def resolve(self):
+        return self
+
+    def exists(self):
+        return False
+
+    def is_file(self):
+        return False
+
+    def unlink(self, *a, **k):
+        raise L.ModelFault("FileNotFoundError", str(self._p))
+
+    def __eq__(self, o):
+        return isinstance(o, MP) and o._p == self._p
+
+    def __lt__(self, o):
+        return self._p < o._p
+
+    def __hash__(self):
+        return hash(self._p)
+
+    def __str__(self):
+        return str(self._p)
+
+    __repr__ = __str__
+
+    def __format__(self, spec):
+        return str(self._p)
+
+    def __truediv__(self, o):
+        return MP(self._p / (o._p if isinstance(o, MP) else o))
+
+
+def eval_setup_paths(ctx, repo, agg):
+    """R8.6: setup_task_paths keeps the pairing in[i] <-> out[i] <-> temp[i]
+    of the lists it is given (tdms2rtdc and split derive the output names
+    index-wise before the call)"""
+    node = repo.func(COMMON, "setup_task_paths")
+    it = L.Interp(repo)
+    env = it.env(COMMON, {"pathlib": L.namespace("pathlib", Path=MP),
+                          "np": L.NPModel()})
+    fn = env.lookup("setup_task_paths")
+    cases = [
+        (["/d/M2.tdms", "/d/M10.tdms", "/d/M1.tdms"],
+         ["/o/M2.rtdc", "/o/M10.rtdc", "/o/M1.rtdc"]),
+        (["/d/b.tdms", "/d/a.tdms"], ["/o/b.rtdc", "/o/a.rtdc"]),
+        (["/d/a.tdms", "/d/b.tdms"], ["/o/z.rtdc", "/o/y"]),
+        (["/d/a.tdms"], ["/o/a.rtdc"]),
+    ]
+    for ins, outs in cases:
+        res = L.run(lambda: fn([MP(x) for x in ins], [MP(x) for x in outs],
+                               allowed_input_suffixes=[".tdms"]))
+        desc = f"inputs {ins}, outputs {outs}"
+        if res[0] != "ok" or not (isinstance(res[1], tuple)
+                                  and len(res[1]) == 3):
+            agg.add("R8.6", "setup_task_paths keeps input/output pairing",
+                    node, False, f"{desc}: {_res(res)}")
+            continue
+        pin, pout, ptmp = ([str(x) for x in lst] for lst in res[1])
+        norm_out = [o if o.endswith(".rtdc") else o + ".rtdc" for o in outs]
+        pairs_in = dict(zip(ins, norm_out))
+        ok = (sorted(pin) == sorted(ins) and len(pout) == len(pin)
+              and all(pairs_in.get(i) == o for i, o in zip(pin, pout))
+              and all(t == o + "~" for o, t in zip(pout, ptmp)))
+        agg.add("R8.6", "setup_task_paths keeps input/output pairing", node,
+                ok, f"{desc}: returned inputs {pin} with outputs {pout} and "
+                f"temps {ptmp} - the i-th input is no longer converted to "
+                f"the i-th output (one list was re-ordered alone)")
+    # single paths stay single
+    res = L.run(lambda: fn(MP("/d/a.rtdc"), MP("/o/b.rtdc"),
+                           allowed_input_suffixes=[".rtdc"]))
+    ok = res[0] == "ok" and [str(x) for x in res[1]] == [
+        "/d/a.rtdc", "/o/b.rtdc", "/o/b.rtdc~"]
+    agg.add("R8.6", "setup_task_paths keeps input/output pairing", node, ok,
+            f"single paths: {_res(res)}")
+
+
+
 # ----------------------------------------------------------------------
 # R8.5 defect table identity, R8.8 tdms2rtdc
 
@@ -1786,6 +1949,8 @@ def run(ctx):
     eval_condense(ctx, repo, agg)
     eval_compress(ctx, repo, agg)
     eval_skip_empty(ctx, repo, agg)
+    eval_features_basin(ctx, repo, agg)
+    eval_setup_paths(ctx, repo, agg)
     agg.flush(ctx, GOOD)
     r83_taint(ctx, repo)
     r83_tasks(ctx, repo)
@@ -2262,4 +2427,37 @@ MUTANTS = list(MUTANTS) + [
          "            ds.filter.manual[0] = False\n"
          "            ds.apply_filter()\n",
          "            _exclude_event(ds, 0)\n"), "R8.8"),
+]
+
+# round-4 seeded changes (/verif/seeded/C08_11, C08_12)
+MUTANTS = list(MUTANTS) + [
+    ("features_basin skips partially overlapping basins (seeded)", CORE,
+     ("                    if bn.features and set(bn.features) <= "
+      "set(features):",
+      "                    if bn.features and set(features).intersection("
+      "bn.features):"), "R8.5"),
+    ("features_basin ignores availability", CORE,
+     ("                    if bn.is_available():\n"
+      "                        features += bn.features\n",
+      "                    features += bn.features\n"), "R8.5"),
+    ("setup_task_paths sorts the inputs alone (seeded)", COMMON,
+     ("    paths_in = [pathlib.Path(pi) for pi in paths_in]\n",
+      "    paths_in = sorted(pathlib.Path(pi) for pi in paths_in)\n"),
+     "R8.6"),
+    ("setup_task_paths derives temp names from the sorted outputs", COMMON,
+     ('    paths_temp = [po.with_suffix(".rtdc~") for po in paths_out]',
+      '    paths_temp = [po.with_suffix(".rtdc~") for po in '
+      'sorted(paths_out)]'), "R8.6"),
+]
+
+TWINS = list(TWINS) + [
+    ("features_basin: subset test via issubset", CORE,
+     ("                    if bn.features and set(bn.features) <= "
+      "set(features):",
+      "                    if bn.features and set(bn.features).issubset("
+      "features):")),
+    ("setup_task_paths: temp names derived in the suffix loop", COMMON,
+     [('    paths_temp = [po.with_suffix(".rtdc~") for po in paths_out]\n',
+       '    paths_temp = []\n    for po in paths_out:\n'
+       '        paths_temp.append(po.with_suffix(".rtdc~"))\n')]),
 ]
